@@ -48,7 +48,7 @@ CHECKS = [
          "1-2 abusing connections send arbitrary well-formed messages (all 63 kinds incl. wrong-direction ones, live/stale/foreign/never-issued cookies and serials, garbage payloads) next to conformant connections and a late-joining probe; no panic (debug assertions on), quiescence within the step cap, snapshot consistent after every step, conformant connections' whole streams equal the model's and they are not closed.",
          "DESIGN.md section 5 C11", SIM + "abuse generator plus whole-stream model comparison for bystanders"),
     wire("C12", "exploration",
-         "Handshake requests inside and outside 1.14..1.20 (legacy and new connect), every gated request kind sent below and above its gate, traffic between all version pairs with payloads of eight container shapes plus multi-segment byte strings and values nested at the depth limit; handshake outcome and negotiated version by the rule in the statement, gate => connection closed, monitor on every broker->client message (no kind newer than the client's version, no 1.20 encoding to a <1.20 client via an independent byte walker), payloads equal as decoded values.",
+         "Handshake requests inside and outside 1.14..1.20 (legacy and new connect), every gated request kind sent below and above its gate, traffic between all version pairs with payloads of eight container shapes plus multi-segment byte strings, values nested at the depth limit and random value trees over all 43 value variants; handshake outcome and negotiated version by the rule in the statement, gate => connection closed, monitor on every broker->client message (no kind newer than the client's version, no 1.20 encoding to a <1.20 client via an independent byte walker), payloads equal as decoded values.",
          "DESIGN.md section 5 C12", SIM + "version monitors on every delivered message plus model comparison"),
 ]
 
